@@ -5,7 +5,7 @@
 (* (Merge.tla, constants) and the trace spec (Merge_Trace.tla, per-record  *)
 (* parameters) use ONE definition.                                         *)
 (***************************************************************************)
-EXTENDS Integers, FiniteSets, Sequences, SequencesExt, FiniteSetsExt
+EXTENDS Integers, FiniteSets, Sequences, SequencesExt, FiniteSetsExt, TLC
 
 RECURSIVE Pow2(_)
 Pow2(k) == IF k = 0 THEN 1 ELSE 2 * Pow2(k - 1)
@@ -30,6 +30,8 @@ M0(n, kind, i, j) ==
     [] kind = "smallzero" -> IF i = j
                              THEN - MapThenSumSet(LAMBDA k : IF k = i THEN 0 ELSE Small(i, k), CellsOf(n))
                              ELSE Small(i, j)
+    [] kind = "given"     -> TLCGet(7)[i + 1][j + 1]      \* a matrix recorded from the code (register 7 is set by the trace spec
+                                                          \* from IOEnv.BASE_FILE: histories harvested from the repository's own tests)
     [] kind = "adjacency" -> IF (i - j = 1) \/ (j - i = 1) \/ (i - j = n - 1) \/ (j - i = n - 1)
                              THEN 1 ELSE 0
 
